@@ -46,6 +46,30 @@ class Run(RunBase):
         self.route = "empty"
         self.tol = 0.0
         self.sc_known = set()  # ids the current Scenario object has reserved
+        self.shadow = None  # the sibling instance after a copy that keeps the original alive
+
+    _FIELDS = ("sc", "present", "sc_known")
+
+    def _swap(self):
+        cur = {f: getattr(self, f) for f in self._FIELDS}
+        for f in self._FIELDS:
+            setattr(self, f, self.shadow[f])
+        self.shadow = cur
+
+    def _check_shadow(self):
+        """A copy and its original are independent networks: whatever happens to one, the index of the other keeps
+        mirroring ITS lanelets."""
+        if self.shadow is None:
+            return
+        self._swap()
+        try:
+            self._panel()
+        except Violation as v:
+            raise Violation(v.signature.replace("C06/", "C06/sibling-affected/", 1),
+                            "the OTHER network (original / copy made earlier) answers wrongly after an operation on this "
+                            "one: " + v.message, v.detail)
+        finally:
+            self._swap()
 
     def close(self):
         if self.dir:
@@ -81,6 +105,8 @@ class Run(RunBase):
             return op["lanelet"] in self.present
         if k in ("q_pos", "q_shape"):
             return all(("far" in p) or p["lanelet"] in self.present for p in op.get("pts", [op]))
+        if k == "swap":
+            return self.shadow is not None
         return k in ("restart", "panel")
 
     # ------------------------------------------------------------------ model helpers
@@ -126,8 +152,12 @@ class Run(RunBase):
         res = [list(x) for x in res_raw]
         for x in res_raw:
             x.append(-7)  # the caller may do what it likes with the returned lists: later answers must not care
+        lat = {i: geom.lattice_ring(ring) for i, (_, ring) in polys.items()}
         for p, got in zip(points, res):
-            truth = {i: geom.point_in_ring(poly, ring, p) for i, (poly, ring) in polys.items()}
+            pl = geom.on_lattice(p)
+            truth = {i: geom.point_in_ring(poly, ring, p, exact=pl and lat[i]) for i, (poly, ring) in polys.items()}
+            if pl and any(lat[i] and poly.touches(SPoint(float(p[0]), float(p[1]))) for i, (poly, _) in polys.items()):
+                self.probe("lattice-point-exactly-on-a-lanelet-border")
             missing, extra = geom.compare_sets(got, truth)
             if missing or extra or len(got) != len(set(got)):
                 raise Violation(self._sig("find_lanelet_by_position"),
@@ -148,7 +178,7 @@ class Run(RunBase):
             poly, ring = polys[la.lanelet_id]
             got = la.contains_points(arr)
             for p, g in zip(points, got):
-                t = geom.point_in_ring(poly, ring, p)
+                t = geom.point_in_ring(poly, ring, p, exact=geom.on_lattice(p) and lat[la.lanelet_id])
                 if t is not None and bool(g) != t:
                     raise Violation(self._sig("Lanelet.contains_points"),
                                     f"lanelet {la.lanelet_id}.contains_points({list(map(float, p))}) = {bool(g)}, "
@@ -170,7 +200,11 @@ class Run(RunBase):
                             f"find_lanelet_by_shape({raw['t']}) raised {type(e).__name__}: {e}")
         # the index has to mirror what the shape's exported geometry denotes (for circles see the open known
         # finding handled in _check_shape_semantics)
-        truth = {i: geom.shape_meets_polygon(geom.exported(raw), poly) for i, (poly, _) in polys.items()}
+        lr = geom.lattice_raw(raw)
+        truth = {i: geom.shape_meets_polygon(geom.exported(raw), poly, exact=lr and geom.lattice_ring(ring))
+                 for i, (poly, ring) in polys.items()}
+        if lr and any(geom.lattice_ring(ring) and poly.touches(geom._poly_of(raw)) for poly, ring in polys.values()):
+            self.probe("lattice-shape-exactly-tangent-to-a-lanelet")
         missing, extra = geom.compare_sets(got, truth)
         if missing or extra or len(got) != len(set(got)):
             raise Violation(self._sig(f"find_lanelet_by_shape[{raw['t']}]"),
@@ -299,8 +333,10 @@ class Run(RunBase):
     def apply(self, op):
         k = op["op"]
         out = getattr(self, "_op_" + k)(op)
-        if k not in ("q_pos", "q_shape", "panel") and self.cfg["panel_after_mutation"]:
+        if k not in ("q_pos", "q_shape", "panel", "swap") and self.cfg["panel_after_mutation"]:
             self._panel()
+        if k not in ("q_pos", "q_shape", "panel", "swap"):
+            self._check_shadow()
         self.note_state([self.route, sorted(self.present)])
         return out
 
@@ -417,6 +453,10 @@ class Run(RunBase):
         self.faults["F-restart"] += 1
         self.probe("restart-" + how)
 
+        if op.get("keep") and how in ("deepcopy", "deepcopy_net", "pickle", "pickle_net") and self.present:
+            self.shadow = {"sc": self.sc, "present": dict(self.present), "sc_known": set(self.sc_known)}
+            self.probe("fork-keeps-original")
+
         def f():
             if how == "deepcopy":
                 self.sc = copy.deepcopy(self.sc)
@@ -464,6 +504,11 @@ class Run(RunBase):
                                                    "right": np.array(la.right_vertices, dtype=float)}
         return "ok"
 
+    def _op_swap(self, op):
+        self._swap()
+        self.probe("continued-on-the-other-copy")
+        return "ok"
+
     def _op_panel(self, op):
         self._panel()
         return "ok"
@@ -471,6 +516,11 @@ class Run(RunBase):
     def _point(self, p):
         if "far" in p:
             return tuple(p["far"])
+        if "snap" in p:
+            la = self.net.find_lanelet_by_id(p["lanelet"])
+            c = la.center_vertices
+            k = min(p["seg"], len(c) - 1)
+            return (float(round(c[k][0])) + p["snap"][0], float(round(c[k][1])) + p["snap"][1])
         la = self.net.find_lanelet_by_id(p["lanelet"])
         if la is None:
             raise HarnessError("model says lanelet present, network cannot find it")
@@ -573,6 +623,17 @@ def _querier(rng, run, cfg):
             yield {"op": "panel"} if rng.chance(0.2) else None
             continue
         r = rng.random()
+        if run.universe.get("lattice") and rng.chance(0.5):
+            if rng.chance(0.5):
+                yield {"op": "q_pos", "pts": [{"lanelet": rng.pick(ids), "seg": rng.randrange(5),
+                                               "snap": [float(rng.randint(-7, 7)), float(rng.choice([-2, -1, 0, 1, 2]))]}
+                                              for _ in range(rng.randint(2, 5))]}
+            else:
+                yield {"op": "q_shape", "lanelet": rng.pick(ids), "seg": rng.randrange(5),
+                       "snap": [float(rng.randint(-7, 7)), float(rng.choice([-3, -2, -1, 0, 1, 2, 3]))], "t": 0.0,
+                       "shape": {"t": "rect", "l": float(rng.choice([2, 4, 8, 12])), "w": float(rng.choice([2, 4, 6]))},
+                       "ori": 0.0, "via": None}
+            continue
         if r < 0.45:
             pts = []
             for _ in range(rng.randint(1, 5)):
@@ -599,7 +660,10 @@ def _querier(rng, run, cfg):
 
 def _restarter(rng, run, cfg):
     while True:
-        yield {"op": "restart", "how": rng.pick(cfg["restart_kinds"])}
+        if run.shadow is not None and rng.chance(0.45):
+            yield {"op": "swap"}
+        else:
+            yield {"op": "restart", "how": rng.pick(cfg["restart_kinds"]), "keep": rng.chance(0.5)}
 
 
 ROUTES = ["create_from_list", "add_one", "scenario_add", "add_from_network", "remove", "cut_out", "add_clash", "add_batch"]
@@ -617,7 +681,9 @@ class C06(Property):
                        "shape-query-rect", "shape-query-circ", "shape-query-poly", "shape-meets-several-lanelets",
                        "obstacle-mapping-checked", "shape-query-via-translate_rotate",
                        "shape-query-via-rotate_translate_local", "coincident-lanelets", "route:add-with-id-clash", "route:add_lanelet[rtree=False..True]",
-                       "candidate-list-with-repeated-obstacle-id"]
+                       "candidate-list-with-repeated-obstacle-id", "fork-keeps-original",
+                       "continued-on-the-other-copy", "lattice-point-exactly-on-a-lanelet-border",
+                       "lattice-shape-exactly-tangent-to-a-lanelet"]
     assumptions = [
         "geometric truth comes from crkit.geom (raw vertices / parameters, shapely predicates on geometry built there) "
         "with a don't-care band: clearance or penetration below 1e-7, and for circles distances in [0.99 r, r] "
@@ -636,8 +702,10 @@ class C06(Property):
 
     def gen_universe(self, rng, cfg):
         ids = gen.IdAlloc(rng, 1, 400)
+        lattice = rng.chance(0.25)
         net = gen.gen_network(rng, rows=rng.randint(1, 3), cols=rng.randint(1, 3), ids=ids, signs=False, lights=False,
-                              intersections=False, stop_lines=False, overlap=rng.chance(0.6), types=False)
+                              intersections=False, stop_lines=False, overlap=rng.chance(0.6), types=False,
+                              lattice=lattice)
         lanelets = {}
         for j, la in enumerate(net["lanelets"]):
             lanelets[f"l{j}"] = la
@@ -666,7 +734,7 @@ class C06(Property):
             other = gen.gen_obstacle(rng, obstacles[0]["id"], net, role="static", t0=0,
                                      shape_kinds=("rect", "poly"), on_road=0.9)
             obstacles.append(other)  # another obstacle carrying the same id (candidate lists are plain lists)
-        return {"lanelets": lanelets, "obstacles": obstacles}
+        return {"lanelets": lanelets, "obstacles": obstacles, "lattice": lattice}
 
     def new_run(self, universe, cfg):
         return Run(universe, cfg)
@@ -712,6 +780,8 @@ class C06(Property):
                 yield dict(op, pts=op["pts"][:i] + op["pts"][i + 1:])
         if op["op"] == "restart" and op["how"] != "deepcopy":
             yield dict(op, how="deepcopy")
+        if op["op"] == "restart" and op.get("keep"):
+            yield dict(op, keep=False)
         if op["op"] == "q_shape" and op.get("via"):
             yield dict(op, via=None)
         if op["op"] == "q_shape" and op["shape"]["t"] == "group" and len(op["shape"]["shapes"]) > 1:
